@@ -69,15 +69,15 @@ TEXT = {
     },
     "C16": {
         "level": "Proof, for every path and event: is_tmp_editor_file is total (no unwrap: a path without file name is not a temporary; non-UTF-8 names are decoded lossily) and equals `*~` or (`.*` and (`*.swp` or `*.swx`)); the event filter is exactly not-temporary and not-under-.zinoma and extension-match; a notify error or an event without relevant path sends nothing, an event with a relevant path does exactly one try_send whose full-slot result is not an error; a missing watched path is skipped, every declared path is handed to notify.",
-        "note": "Assumed: str/Path predicates are uninterpreted (A-str; their byte-level bodies are only exercised by bounded Kani harnesses), notify delivers events for paths existing at watch() time (A-notify), iterator adapters filter/collect (A-all), capacity-1 channel try_send (A-chan).",
+        "note": "Assumed: str/Path predicates as uninterpreted functions in this unit (A-str; the FS unit of C15 proves which functions is_in_work_dir and matches_extensions are), notify delivers events for paths existing at watch() time (A-notify), iterator adapters filter/collect (A-all), capacity-1 channel try_send (A-chan).",
     },
     "C18": {
         "level": "Proof (frame conditions): incremental::run, delete_saved_env_state and save_env_state change the state store at the target's own path only, and that path is a function of (project_dir, target id) only; the skip decision is a function of the record at that path and of the world restricted to the target's own resources (nothing else is read by the contracted functions).",
         "note": INC_NOTE + " Not covered: injectivity of the file-name formatting; that project_dir is canonical (load path).",
     },
     "C19": {
-        "level": "Proof for the resolution half: both reference kinds of a target (`dependencies:` and `X.output` inputs) are parsed with the referencing target's own project as the default project (so a bare reference always means a target of that same project and equal names in different projects do not interfere); the root project name used for command-line names is the name of the project at the root directory; the resolved map is keyed by each target's own id, so asking for a target twice inserts it once. The string-level behaviour of TargetId::try_parse (no `::` -> current project, one -> named project, more -> rejected) is a bounded Kani harness over names of <= 5 characters, never counted as proved.",
-        "note": "Assumed: TargetId::try_parse as the function parse_ref (its body is exercised only by the bounded harness), the regex of X.output entries (A-yaml), A-hash/A-clone/A-std/A-all as for C09.",
+        "level": "Proof for the resolution half: both reference kinds of a target (`dependencies:` and `X.output` inputs) are parsed with the referencing target's own project as the default project (so a bare reference always means a target of that same project and equal names in different projects do not interfere); the root project name used for command-line names is the name of the project at the root directory; the resolved map is keyed by each target's own id, so asking for a target twice inserts it once. TargetId::try_parse itself is under contract over character sequences: the text is split at `::`; one piece -> that target of the current project, two -> (project, target), anything else -> rejected; a text without `::` always means the current project (lemma from the defining facts of split); try_parse_many is the element-wise result.",
+        "note": "Assumed: str::split with its three defining facts and to_owned (A-str); in the CFG unit try_parse is the function parse_ref, re-validated by the DOM unit whenever its text changes; the regex of X.output entries (A-yaml), A-hash/A-clone/A-std/A-all as for C09.",
     },
     "C20": {
         "level": "Proof: an aggregate asks every dependency on the first requester of a kind, acknowledges upward exactly when nothing of that kind is pending (also at once for an empty aggregate or a late requester), reports actual = some dependency reported actual, forwards invalidation only after a stimulus, never executes anything itself.",
